@@ -852,6 +852,9 @@ namespace sim
 			// called when a packet is dropped
 			void packet_dropped(aux::packet p);
 
+			// the drop notification to attach to an outgoing packet
+			aux::function<void(aux::packet)> make_drop_fun();
+
 			aux::function<void(boost::system::error_code const&)> m_connect_handler;
 
 			asio::high_resolution_timer m_connect_timer;
